@@ -624,6 +624,77 @@ example : let s : List Clause := [⟨.gt, mk' 0 [1, 0] none none none none⟩,
     · exact absurd ((vk_eq_iff _ _).1 h) (by decide)
     · exact h (by decide)
 
+/-- **every comma-joined set — `==` mixed with `!=`, `!=V.*` and all the range operators — without any regularity
+of the ends among themselves**, on every candidate regular for each literal (the "exact-literal" / "other-release"
+guard).  `==` literals may carry a local label; the literals of the other clauses carry none (`ClauseOk` for the
+ordered comparisons; asked for `!=`).  One static side condition, decidable on the set: `NoPoint` — no inclusive
+lower end equals an inclusive upper end (`>=V, <=V` inside a set with a `!=` clause would put a `Version` member
+into a union).  `parse_constraint`'s left-to-right `intersect` is defined at every step; the running constraint is a
+single `Version`, or a well-formed union of range members; its member-by-member membership (the real `allows` when
+the result is not a union) equals the reference conjunction. -/
+theorem guarded_set_membership_eq_ref (first : Clause) (rest : List Clause)
+    (hok : ∀ c ∈ first :: rest, ClauseOk c.op c.lit ∧ ((c.op = .eqStar ∨ c.op = .neStar) → c.lit.isFinal = true) ∧
+      (c.op = .ne → c.lit.loc = none))
+    (hnp : NoPoint (setLoI (first :: rest)) (setHiI (first :: rest)))
+    (v : Version) (hv : v.wf = true) (hreg : ∀ c ∈ first :: rest, Reg1 v c.lit) :
+    ∃ r, setVC (first :: rest) = .ok r ∧ r.allowsPlain v = contains (first :: rest) v ∧
+      (r.notUnion → r.allows v = .ok (contains (first :: rest) v)) := by
+  have one : ∀ d ∈ first :: rest, ∃ c, clauseVC d.op d.lit = .ok c ∧
+      c.QInv (setLoI (first :: rest)) (setHiI (first :: rest)) v ∧ c.allowsPlain v = d.contains v := by
+    intro d hd
+    by_cases heq : d.op = .eq
+    · obtain ⟨y, hy, ay⟩ := clause_membership_eq_ref d.op d.lit v (hok d hd).1 (by rw [heq]; exact ⟨by simp, by simp⟩) hv
+        (hreg d hd)
+      have hc : clauseVC d.op d.lit = .ok (.single (.ver d.lit)) := by rw [heq]; rfl
+      rw [hc] at hy; cases hy
+      refine ⟨_, hc, Or.inl ⟨d.lit, rfl, (hok d hd).1.1, hreg d hd⟩, ?_⟩
+      simpa [VC.allows, VC.allowsPlain, VC.flatten] using ay
+    · have hloc : d.lit.loc = none := by
+        by_cases hne : d.op = .ne
+        · exact (hok d hd).2.2 hne
+        · exact (hok d hd).1.2.1 heq hne
+      have hok' : ClauseOk' d.op d.lit := ⟨(hok d hd).1.1, (hok d hd).1.2.1, (hok d hd).1.2.2, (hok d hd).2.1⟩
+      obtain ⟨c, hc, hinv⟩ := clauseVC_at (setLoI (first :: rest)) (setHiI (first :: rest)) d.op d.lit hok' heq hloc v
+        (hreg d hd) (fun e he => List.mem_flatMap.2 ⟨d, hd, he⟩) (fun e he => List.mem_flatMap.2 ⟨d, hd, he⟩)
+      refine ⟨c, hc, Or.inr hinv, ?_⟩
+      have hplain := clause_allows_plain d.op d.lit (hok d hd).1.1 hloc (hok d hd).2.1 c hc v
+      have href : c.allows v = .ok (d.contains v) := by
+        by_cases h1 : d.op = .eqStar
+        · obtain ⟨y, hy, ay⟩ := wildcard_membership_eq_ref d.lit v (hok d hd).1.1 ((hok d hd).2.1 (Or.inl h1)) hv
+          rw [h1] at hc; rw [hc] at hy; cases hy
+          cases d; simp only at h1; subst h1; exact ay
+        · by_cases h2 : d.op = .neStar
+          · obtain ⟨y, hy, ay⟩ := wildcard_ne_membership_eq_ref d.lit v (hok d hd).1.1 ((hok d hd).2.1 (Or.inr h2)) hv
+            rw [h2] at hc; rw [hc] at hy; cases hy
+            cases d; simp only at h2; subst h2; exact ay
+          · obtain ⟨y, hy, ay⟩ := clause_membership_eq_ref d.op d.lit v (hok d hd).1 ⟨h1, h2⟩ hv (hreg d hd)
+            rw [hc] at hy; cases hy; exact ay
+      rw [hplain] at href
+      injection href
+  obtain ⟨cf, hcf, hfi, hfs⟩ := one first (by simp)
+  obtain ⟨res, h1, h2, h3⟩ := foldClauses_atQ hnp v hv rest cf hfi (fun d hd => one d (by simp [hd]))
+  have hsem : res.allowsPlain v = contains (first :: rest) v := by
+    rw [h3, hfs]; simp [contains]
+  refine ⟨res, by simp only [setVC, hcf, bind, Except.bind]; exact h1, hsem, fun hnu => ?_⟩
+  rw [VC.allows_of_notUnion res v hnu, hsem]
+
+/-- the hypotheses are satisfiable: `==2.0, !=1.0.post1, >1.0rc1` (literals `1.0.post1` and `1.0rc1` are siblings
+of each other) on the candidate `2.0`, equal to the first literal and of another release than the others -/
+example : let s : List Clause := [⟨.eq, mk' 0 [2, 0] none none none none⟩,
+      ⟨.ne, mk' 0 [1, 0] none (some ⟨.post, 1⟩) none none⟩, ⟨.gt, mk' 0 [1, 0] (some ⟨.rc, 1⟩) none none none⟩]
+    NoPoint (setLoI s) (setHiI s) ∧ (∀ c ∈ s, Reg1 (mk' 0 [2, 0] none none none none) c.lit) ∧
+    contains s (mk' 0 [2, 0] none none none none) = true := by
+  intro s
+  refine ⟨?_, ?_, by decide⟩
+  · intro m hm M hM
+    simp [s, setHiI, clauseHiI] at hM
+  · intro c hc
+    simp only [s, List.mem_cons, List.mem_nil_iff, or_false] at hc
+    rcases hc with rfl | rfl | rfl
+    · exact Or.inl rfl
+    · exact Or.inr (by decide)
+    · exact Or.inr (by decide)
+
 /-- **the guard, for sets without `!=` / `!=V.*`, with no residual hypothesis**: every literal is a final release
 (any candidate), or the candidate is regular for every literal (equal to it or of another release).  The complement
 is the class `sibling-of-another-literal` (`counterexample_sibling_of_another_literal`). -/
@@ -649,7 +720,7 @@ regularity between the literals); against the real `allows` under `RegB` (`regul
 equal to one literal and sibling of another): `counterexample_sibling_of_another_literal`; the check's known classes
 "sibling-of-another-literal", "local-min-intersect".  Not proved: for sets with `!=` outside `RegB`, that
 `VersionUnion.allows`'s `excludes_single_version` shortcut does not raise on the resulting union (the member-by-member
-answer is proved); `==` clauses together with `!=` clauses outside `RegB`. -/
+answer is proved: `guarded_set_membership_eq_ref` for every comma set under the guard and `NoPoint`). -/
 def membership_eq_ref_full_statement : Prop :=
   ∀ (s : List Clause) (v : Version), (∀ c ∈ s, ClauseOk c.op c.lit) → v.wf = true → InDomain s v →
     ∃ c, setVC s = .ok c ∧ c.allows v = .ok (contains s v)
